@@ -13,7 +13,9 @@ structure Cfg where
 deriving Repr
 
 def old : Cfg := ⟨false, false, false, 200⟩
-def repaired : Cfg := ⟨true, true, true, 200⟩
+/-- the code after the repairs, with a subscription limit of `max` -/
+def repairedWith (max : Nat) : Cfg := ⟨true, true, true, max⟩
+def repaired : Cfg := repairedWith 200
 
 inductive Kind | sub | mut deriving DecidableEq, Repr
 inductive Ev | S (id rid : Nat) | U (id rid : Nat) deriving DecidableEq, Repr
